@@ -221,7 +221,7 @@ func (b *builder) fillValues(c *scen.Call) {
 	}
 }
 
-var subNames = []string{"sub", "s1", "case_a", "b", "sub10", "sub2", "nest", "A", "1", "Sub", "sub.1", "sub-2", "v9a", "v10", "7", "07", "50%_off"}
+var subNames = []string{"sub", "s1", "case_a", "b", "sub10", "sub2", "nest", "A", "1", "Sub", "sub.1", "sub-2", "v9a", "v10", "7", "07", "50%_off", "x/y", "[x]", "sub#01", "ünï", "a=b"}
 
 func (b *builder) genNode(name, full string, site, depth int) *scen.TestNode {
 	r, p := b.r, b.p
